@@ -33,10 +33,12 @@ BOUNDS = {
              "pad/trim: input shapes 1..5 x 1..5 (unmasked) and every mask of shapes with <= 6 pixels, odd kernels (1,1),(1,3),(3,1),(3,3),(1,5),(5,1),(3,5),(5,3),(5,5); "
              "Mask2D.trimmed_array_from: padded frames 1..5 x 1..5, every image_shape <= frame; "
              "Imaging.apply_mask: every mask (>= 1 unmasked pixel) of shapes with <= 8 pixels plus 3x3, odd PSF shapes (1,1),(1,3),(3,1),(3,3),(3,5),(5,3); "
-             "zoom: every mask (>= 1 unmasked pixel) of shapes with <= 9 pixels (sides <= 6) plus 2x5, 5x2, buffers 0,1,2",
+             "zoom: every mask (>= 1 unmasked pixel) of shapes with <= 9 pixels (sides <= 6) plus 2x5, 5x2, buffers 0,1,2; "
+             "zoom histories (zoom + read every zoom quantity, flip ONE pixel of the same Mask2D object in place, zoom again): every mask of shapes with <= 6 pixels "
+             "x every pixel, buffers 0,1",
     "thorough": "same obligations; input shapes 1..6 x 1..6, targets 1..8 x 1..8 (2304 pairs); extraction windows of shapes <= 5x5; every mask of shapes with <= 8 pixels "
                 "x targets 1..6 x 1..6 (mask/array resize, pad/trim); every mask of shapes with <= 9 pixels plus 2x5, 5x2 (Imaging.apply_mask, odd PSF shapes up to (5,5)); "
-                "every mask of shapes with <= 9 pixels plus 3x4, 4x3, 2x5, 5x2, 2x6, 6x2 (zoom, buffers 0..3)",
+                "every mask of shapes with <= 9 pixels plus 3x4, 4x3, 2x5, 5x2, 2x6, 6x2 (zoom, buffers 0..3); zoom histories on every mask of shapes with <= 8 pixels x every single-pixel in-place edit",
 }
 OUTSIDE = [
     "shapes beyond the enumerated bounds; kernels with an axis longer than 5",
@@ -53,6 +55,7 @@ ASSUMPTIONS = [
     "index-labelled array, restricted to the admissible candidates {floor(d/2), ceil(d/2)}, d = size_in - size_out; the solver then decides "
     "'out == window(in, witness)' for all values",
     "masks of class-level cases are explored by forking (one path per mask)",
+    "histories are bounded to one in-place single-pixel edit (Mask2D.__setitem__) between two zoom reads",
 ]
 EXPLORER_OPTS = {"timeout_ms": 20000, "max_paths": 200000, "max_decisions": 50000}
 BUDGET_S = {"quick": 900, "thorough": 3000}
